@@ -98,6 +98,21 @@ def main():
                 except Exception as e:
                     R.fail('field-roundtrip-exc:%s:%s' % (v, c[0]), 'field-roundtrip-exc:%s:%s' % (v, c[0]),
                            'v%s parse_field(%s, name=%s) raises %s: %s' % (v, short(fv), c[0], type(e).__name__, e))
+        # leaf text with escape sequences is stored and re-emitted verbatim (C01 "incl. escape sequences", C06 E4)
+        esc_leaf = 'C:\\E\\temp\\E\\x \\F\\1\\S\\2\\T\\3\\R\\4 \\H\\hi\\N\\' + ('\\L\\' if v >= '2.7' else '')
+        for what, fn_, txt in (('segment', lambda t: parse_segment(t, version=v).to_er7(), 'NTE|1||' + esc_leaf),
+                               ('field', lambda t: parse_field(t, name='NTE_3', version=v).to_er7(), esc_leaf),
+                               ('component', lambda t: parse_component(t, datatype='ST', version=v).to_er7(), esc_leaf)):
+            try:
+                out = fn_(txt)
+                if out != txt:
+                    R.fail('escape-roundtrip:%s:%s' % (v, what), 'escape-sequences-not-preserved:%s' % what,
+                           'v%s parse_%s(%s).to_er7() == %s' % (v, what, short(txt), short(out)),
+                           'from hl7apy.parser import parse_segment\nt=%r\nassert parse_segment(t, version=%r).to_er7()==t' % ('NTE|1||' + esc_leaf, v))
+                else:
+                    R.ok((v, 'escape', what))
+            except Exception as e:
+                R.fail('escape-roundtrip-exc:%s:%s' % (v, what), 'escape-sequences-raise:%s' % type(e).__name__, 'v%s %s: %s' % (v, what, e))
         # message level, group finding on and off (C01, C03, C08.G3)
         for mname, body in message_corpus(v):
             msh = 'MSH|^~\\&|SND|FAC|RCV|FAC|20200131120000||%s|MSGID1|P|%s' % (mname, v)
@@ -143,6 +158,33 @@ def main():
                                    'v%s find_groups=%s: leaves differ: %s vs %s' % (v, fg, short(out, 200), short(text, 200)))
                         else:
                             R.ok((v, 'c03', pos, ex[:3], fg))
+            # values holding characters that are line boundaries for str.splitlines() but not segment terminators
+            for ch in ('\x0c', '\x1d', '\x85', '\u2028', '\n'):
+                text = '\r'.join([msh] + body + ['NTE|1||first' + ch + 'second'])
+                for fg in (True, False):
+                    try:
+                        out = parse_message(text, find_groups=fg).to_er7()
+                        if out != text:
+                            R.fail('C03:line-boundary-char:%s:%r:%s' % (v, ch, fg), 'C03:value-cut-at-non-CR-line-boundary',
+                                   'v%s find_groups=%s: a value containing %r is not preserved: %s' % (v, fg, ch, short(out[-60:])))
+                        else:
+                            R.ok((v, 'linechar', ch, fg))
+                    except Exception:
+                        R.ok((v, 'linechar-exc', ch, fg))
+            # `varies` fields with an empty component before a valued one (OBX-5, QPD-3 and beyond)
+            if 'OBX' in L.SEGMENTS and well_formed('OBX', L.SEGMENTS['OBX'][1]) and len(L.SEGMENTS['OBX'][1]) >= 5:
+                for val in ('182^^L', '^^L', '^Staph aureus^L', 'a&b^^c~^^d'):
+                    for seg_text in ('OBX|1|CE|ORG^Organism^L||' + val, ):
+                        try:
+                            out = parse_segment(seg_text, version=v).to_er7()
+                            if out != seg_text:
+                                R.fail('C03:varies-gap:%s:%s' % (v, val), 'C03:varies-field-component-lost',
+                                       'v%s parse_segment(%r).to_er7() == %r' % (v, seg_text, out))
+                            else:
+                                R.ok((v, 'varies', val))
+                        except Exception as e:
+                            R.fail('C03:varies-gap-exc:%s:%s' % (v, val), 'C03:varies-field-raises:%s' % type(e).__name__,
+                                   'v%s parse_segment(%r).to_er7() raised %s: %s' % (v, seg_text, type(e).__name__, e))
             over = body[0] + '|' * 40 + 'BEYOND'
             text = '\r'.join([msh, over] + body[1:])
             for fg in (True, False):
